@@ -74,8 +74,8 @@ class StubsStringGenerator:
 
             elements: list[Class | Function] = self.reexport_modules[module_id]
 
-            # We sort for the snapshot tests
-            elements.sort(key=lambda x: x.name)
+            # We sort for the snapshot tests (the id breaks ties between elements that are reexported under one name)
+            elements.sort(key=lambda x: (x.name, x.id))
 
             for element in elements:
                 # Reset the objects that we normally would reset in the __call__
